@@ -9,6 +9,7 @@ import (
 	"fmt"
 	"os"
 	"os/exec"
+	"path/filepath"
 	"runtime/debug"
 	"strings"
 	"time"
@@ -220,7 +221,43 @@ func runC12(r *Run) {
 	if r.Tier == "thorough" {
 		depths = append(depths, 22, 24, 100, 1000, 5000)
 	}
+	// every nest first in a CHILD process with a time limit: a front end that is exponential in the nesting depth would
+	// otherwise stall this process for ever
+	nest := func(src string) {
+		f := filepath.Join(r.OutDir, "c12src.txt")
+		os.WriteFile(f, []byte(src), 0o644)
+		cmd := exec.Command(os.Args[0], "C12src", f)
+		done := make(chan error, 1)
+		if err := cmd.Start(); err != nil {
+			return
+		}
+		go func() { done <- cmd.Wait() }()
+		limit := 20 * time.Second
+		if n := len([]rune(src)); n > 2000 {
+			limit = 120 * time.Second
+		}
+		select {
+		case err := <-done:
+			if err != nil {
+				r.Violate("process-crash:source", fmt.Sprintf("%q (%d runes)", trunc(src, 120), len([]rune(src))), fmt.Sprintf("child process died: %v", err))
+				return
+			}
+		case <-time.After(limit):
+			cmd.Process.Kill()
+			r.Violate("time-budget:source", fmt.Sprintf("%q (%d runes)", trunc(src, 120), len([]rune(src))), fmt.Sprintf("Eval / Compile / Debug did not return within %v", limit))
+			return
+		}
+		r.Count("nests probed in a child process")
+		c12One(r, src, good, "map", budget)
+	}
 	for _, d := range depths {
+		nest("x" + strings.Repeat(".abs()", d*2))
+		nest("s" + strings.Repeat(".len().string()", d))
+		nest(strings.Repeat("abs(", d*2) + "x" + strings.Repeat(")", d*2))
+		nest("xs" + strings.Repeat(".get(0, 1).max(2)", d) + " + xs[0]")
+		nest("m" + strings.Repeat("[\"k\"].string().len()", 1) + strings.Repeat(" + x.abs().abs()", d))
+		nest(strings.Repeat("!", d*3) + "(x > 1)")
+		nest(strings.Repeat("(x > 0 ? ", d) + "1" + strings.Repeat(" : 2)", d))
 		c12One(r, strings.Repeat("[", d)+"1:1"+strings.Repeat("]:1", d-1)+"]", good, "map", budget)
 		c12One(r, strings.Repeat("[", d)+"1"+strings.Repeat("]", d), good, "map", budget)
 		c12One(r, strings.Repeat("(", d*10)+"1"+strings.Repeat(")", d*10), good, "map", budget)
@@ -295,5 +332,26 @@ func c12Child(i int) {
 	if cl != nil {
 		protect(func() { cl(h) })
 	}
+	os.Exit(0)
+}
+
+// c12Src: run the API entry points on the source in the given file over the ordinary host value and exit 0.
+func c12Src(file string) {
+	b, err := os.ReadFile(file)
+	if err != nil {
+		os.Exit(3)
+	}
+	src := string(b)
+	hosts := c12Hosts()
+	good := hosts[len(hosts)-1]
+	protect(func() { yae.Eval(src, good) })
+	protect(func() {
+		cl, err := yae.NewExpr().Compile(src, good)
+		if err == nil && cl != nil {
+			cl(good)
+		}
+	})
+	protect(func() { yae.NewExpr().UseClosureCompiler().Compile(src, good) })
+	protect(func() { yae.Debug(src, good) })
 	os.Exit(0)
 }
